@@ -252,7 +252,7 @@ func collectSites(f *File, from int) []tokSite {
 	return sites
 }
 
-var c13ValWords = []string{"1", "2", "7", "0x10", "-3", "FLAG_BASE", "VAR_BASE", "ITEM_X", "+", "-", "*", "|", "&"}
+var c13ValWords = []string{"1", "2", "7", "0x10", "-3", "FLAG_BASE", "VAR_BASE", "ITEM_X", "ITEM_NONE", "step_end", "+", "-", "*", "|", "&"}
 
 func genC13(t *rapid.T) *C13Case {
 	cfg := DefaultFileCfg()
